@@ -153,6 +153,20 @@ def runOp (ctx : Ctx) (op : Json) : Except String Json := do
   let kind ← str op "op"
   if kind == "check" then
     return ← checkOp ctx (← fld op "orig") (← fld op "impl")
+  if kind == "cast" then
+    let rep (s : String) : GoRep := match s with
+      | "f32" => .f32 | "f64" => .f64 | "i32" => .i32 | "u32" => .u32 | "i64" => .i64 | "u64" => .u64 | _ => .str
+    let from_ := rep (strD op "from")
+    let to_ := rep (strD op "to")
+    let bits := natOfStr (← fld op "bits")
+    let x : Sc := match from_ with
+      | .f32 => .f32 (BitVec.ofNat 32 bits) | .f64 => .f64 (BitVec.ofNat 64 bits)
+      | .i32 | .u32 => .w32 (BitVec.ofNat 32 bits) | _ => .w64 (BitVec.ofNat 64 bits)
+    let r : String := match conv from_ to_ x with
+      | some (.f32 v) => toString v.toNat | some (.f64 v) => toString v.toNat
+      | some (.w32 v) => toString v.toNat | some (.w64 v) => toString v.toNat
+      | _ => "unsupported"
+    return Json.mkObj [("bits", .str r)]
   if kind == "emit" then
     match emit ctx.c with
     | .fail e => return Json.mkObj [("fail", .str (reprStr e))]
